@@ -67,6 +67,9 @@ func avgUnit(l []MArch) int64 {
 	return u
 }
 
+// set whenever a real value had to be replaced by the sentinel
+var unrepSeen bool
+
 type sparse [][][3]interface{}
 
 func (m Mapping) modelV(v float64) []int64 {
@@ -75,6 +78,7 @@ func (m Mapping) modelV(v float64) []int64 {
 	}
 	x := v / m.Scale
 	if x != math.Trunc(x) || math.Abs(x) > 2e9 {
+		unrepSeen = true
 		return []int64{unrepresentable}
 	}
 	return []int64{int64(x)}
@@ -204,8 +208,13 @@ func (d *coreDriver) oneTrace(id int) error {
 		}
 		ds, n, err := diskSparse(path, m)
 		if err != nil {
+			// the bytes are not a classic Whisper file any more (e.g. the length changed)
 			ev["disk_error"] = err.Error()
-			ev["disk"] = [][][]interface{}{}
+			none := make([][][]interface{}, k)
+			for i := range none {
+				none[i] = [][]interface{}{}
+			}
+			ev["disk"] = none
 		} else {
 			ev["disk"] = ds
 		}
